@@ -65,11 +65,12 @@ type WrapRec struct {
 
 // Env owns the id counter and the factory log of one case.
 type Env struct {
-	n      int
-	Log    []WrapRec
-	Built  []*H // handlers produced by the 405 / OPTIONS builders, in order
-	Recov  []any
-	RecovN int
+	mwCount int
+	n       int
+	Log     []WrapRec
+	Built   []*H // handlers produced by the 405 / OPTIONS builders, in order
+	Recov   []any
+	RecovN  int
 }
 
 func NewEnv() *Env { return &Env{} }
@@ -115,7 +116,16 @@ func (m *MW) Middleware(next *H, method, pattern, router string) *H {
 	return &H{ID: m.Name + "(" + id + ")", Kind: "mw", MW: m.Name, Next: next}
 }
 
-func (e *Env) NewMW(name string) types.Middleware[*H] { return &MW{Name: name, Env: e} }
+// NewMW returns the factory in one of the two forms a caller can write it in: every second one is the method value
+// wrapped in types.MiddlewareFunc.
+func (e *Env) NewMW(name string) types.Middleware[*H] {
+	m := &MW{Name: name, Env: e}
+	e.mwCount++
+	if e.mwCount%2 == 0 {
+		return types.MiddlewareFunc[*H](m.Middleware)
+	}
+	return m
+}
 
 // Outcome is everything observed about one request.
 type Outcome struct {
